@@ -319,39 +319,42 @@ theorem headReady_closed (now : Int) (qu : List AnswerGroup) :
   | nil => rfl
   | cons g gs => simp [headReady, PyList.first, bind, Except.bind, pure, Except.pure]
 
-/-- one round of the `while` loop on the loop state (self, answers) -/
-def popStep (st : MulticastOutgoingQueue × Dict) : MulticastOutgoingQueue × Dict :=
+/-- one round of the `while` loop on the loop state (self, answers, "left by break") -/
+def popStep (st : MulticastOutgoingQueue × Dict × Bool) : MulticastOutgoingQueue × Dict × Bool :=
   match st.1.queue with
   | [] => st
-  | g :: gs => ({ st.1 with queue := gs }, PyDict.update natEq st.2 g.answers)
+  | g :: gs => ({ st.1 with queue := gs }, PyDict.update natEq st.2.1 g.answers, st.2.2)
+
+/-- leaving the loop because its test fails -/
+def popFin (st : MulticastOutgoingQueue × Dict × Bool) : MulticastOutgoingQueue × Dict × Bool := (st.1, st.2.1, true)
 
 /-- the whole loop, on the deque -/
 def popGen (now : Int) : List AnswerGroup → Dict → List AnswerGroup × Dict
   | [], acc => ([], acc)
   | g :: gs, acc => if g.send_after ≤ now then popGen now gs (PyDict.update natEq acc g.answers) else (g :: gs, acc)
 
-theorem iterWhile_pop (now : Int) (n : Nat) (s : MulticastOutgoingQueue) (acc : Dict) (hn : s.queue.length < n) :
-    iterWhile (fun st => headReady now st.1.queue) popStep n (s, acc) =
-      ({ s with queue := (popGen now s.queue acc).1 }, (popGen now s.queue acc).2) := by
+theorem iterWhile_pop (now : Int) (n : Nat) (s : MulticastOutgoingQueue) (acc : Dict) (fl : Bool) (hn : s.queue.length < n) :
+    iterWhileF (fun st => headReady now st.1.queue) popStep popFin n (s, acc, fl) =
+      ({ s with queue := (popGen now s.queue acc).1 }, (popGen now s.queue acc).2, true) := by
   induction n generalizing s acc with
   | zero => omega
   | succ n ih =>
-    rw [iterWhile]
+    rw [iterWhileF]
     obtain ⟨zc, qu, mn, mx, ad, ag⟩ := s
     cases qu with
     | nil => rfl
     | cons g gs =>
       by_cases hg : g.send_after ≤ now
-      · have hc : (fun st : MulticastOutgoingQueue × Dict => headReady now st.1.queue) (⟨zc, g :: gs, mn, mx, ad, ag⟩, acc) = true := by
+      · have hc : (fun st : MulticastOutgoingQueue × Dict × Bool => headReady now st.1.queue) (⟨zc, g :: gs, mn, mx, ad, ag⟩, acc, fl) = true := by
           simp [headReady, hg]
         rw [if_pos hc]
         have := ih ⟨zc, gs, mn, mx, ad, ag⟩ (PyDict.update natEq acc g.answers) (by simpa using Nat.lt_of_succ_lt_succ hn)
         simp only [popStep, popGen, hg, if_true]
         exact this
-      · have hc : ¬ (fun st : MulticastOutgoingQueue × Dict => headReady now st.1.queue) (⟨zc, g :: gs, mn, mx, ad, ag⟩, acc) = true := by
+      · have hc : ¬ (fun st : MulticastOutgoingQueue × Dict × Bool => headReady now st.1.queue) (⟨zc, g :: gs, mn, mx, ad, ag⟩, acc, fl) = true := by
           simp [headReady, hg]
         rw [if_neg hc]
-        simp only [popGen, hg, if_false]
+        simp only [popGen, hg, if_false, popFin]
 
 theorem headReady_popGen (now : Int) (qu : List AnswerGroup) (acc : Dict) : headReady now (popGen now qu acc).1 = false := by
   induction qu generalizing acc with
@@ -378,19 +381,19 @@ theorem async_ready_closed (s : MulticastOutgoingQueue) (now clock : Int) :
   unfold MulticastOutgoingQueue.async_ready
   dsimp only
   simp only [headReady_closed]
-  rw [forIn_except_while _ _ _ (fun st => headReady now st.1.queue) popStep ?hf]
+  rw [forIn_except_whileF _ _ _ (fun st => headReady now st.1.queue) popStep popFin ?hf]
   case hf =>
     intro x st
     simp only [bind, Except.bind, pure, Except.pure]
     cases hq : st.1.queue with
-    | nil => simp [headReady, hq]
+    | nil => simp [headReady, hq, popFin]
     | cons g gs =>
       by_cases hg : g.send_after ≤ now
       · simp [headReady, hq, hg, PyList.popleft, popStep]
-      · simp [headReady, hq, hg]
+      · simp [headReady, hq, hg, popFin]
   simp only [List.length_range]
-  rw [iterWhile_pop now _ s PyDict.empty (Nat.lt_succ_self _)]
-  simp only [bind, Except.bind, pure, Except.pure, headReady_popGen, pyFuel_false, PyDict.empty]
+  rw [iterWhile_pop now _ s PyDict.empty false (Nat.lt_succ_self _)]
+  simp only [bind, Except.bind, pure, Except.pure, Bool.not_true, pyFuel_false, PyDict.empty]
   obtain ⟨zc, qu, mn, mx, ad, ag⟩ := s
   cases qu with
   | nil => simp [popGen, PyDict.isEmpty]
